@@ -340,7 +340,13 @@ static void gc_mark(GCHeader* header) {
             
             /* If array contains GC objects (arrays or structs), mark them */
             /* Note: Arrays of GC objects store pointers to those objects */
-            if (elem_type == ELEM_ARRAY || elem_type == ELEM_STRUCT) {
+            /* Struct arrays keep their elements inline (elem_size bytes each);
+             * only when an element is exactly one pointer wide can it be a
+             * pointer to a GC object. Reading other struct arrays as void*[]
+             * runs past the end of the element store. */
+            if (arr->data != NULL &&
+                (elem_type == ELEM_ARRAY ||
+                 (elem_type == ELEM_STRUCT && arr->elem_size == sizeof(void*)))) {
                 int64_t len = dyn_array_length(arr);
                 /* For object arrays, data is an array of pointers */
                 void** ptr_data = (void**)arr->data;
